@@ -57,6 +57,15 @@ def error_query(msg, q=None):
     return q
 
 
+def field_is_searchable(ixreader, fieldname):
+    """Returns True if the reader's schema has an indexed field with the given
+    name. A query on any other field matches nothing.
+    """
+
+    schema = ixreader.schema
+    return fieldname in schema and schema[fieldname].format is not None
+
+
 def token_lists(q, phrases=True):
     """Returns the terms in the query tree, with the query hierarchy
     represented as nested lists.
@@ -725,6 +734,9 @@ class Every(Query):
         if fieldname in (None, "", "*"):
             # This takes into account deletions
             doclist = array("I", reader.all_doc_ids())
+        elif not field_is_searchable(reader, fieldname):
+            # No document has a term in a field the index does not have
+            return matching.NullMatcher()
         else:
             # This is a hacky hack, but just create an in-memory set of all the
             # document numbers of every term in the field. This is SLOOOW for
